@@ -1,10 +1,14 @@
 import Model
 import Driver.Codec
 import Driver.Pure
+import Driver.Layers
 open Driver
 
 def dispatch (fs : List (List Char)) : String :=
   match pureCmd fs with
+  | some out => outFields out
+  | none =>
+  match layerCmd fs with
   | some out => outFields out
   | none => "bad-op"
 
